@@ -8,27 +8,36 @@ class Guard:
     """A check K: a call site pattern + the flag value that means 'check passed' + optional
     constraints on the arguments of the call (data-dependence predicates)."""
 
-    def __init__(self, name, callee_pat, want=1, arg_pred=None, via="dest"):
+    def __init__(self, name, callee_pat, want=1, arg_pred=None, via="dest", alt=()):
+        """alt: further (callee pattern, passing flag value) forms of the same check, e.g. `a != b` with value 0 for `a == b` with value 1"""
         self.name = name
         self.rx = re.compile(callee_pat)
         self.want = want
         self.arg_pred = arg_pred   # f(fv, term) -> bool
         self.via = via
+        self.alt = [(re.compile(p), w) for p, w in alt]
+
+    def _forms(self):
+        return [(self.rx, self.want)] + self.alt
 
     def sites(self, fv):
         out = []
         for bi, t in fv.calls:
-            if self.rx.search(cname(t)) or self.rx.search(t.get("callee_full") or ""):
-                if self.arg_pred is None or self.arg_pred(fv, t):
-                    out.append((bi, t))
+            for rx, _ in self._forms():
+                if rx.search(cname(t)) or rx.search(t.get("callee_full") or ""):
+                    if self.arg_pred is None or self.arg_pred(fv, t):
+                        out.append((bi, t))
+                    break
         return out
 
     def edges(self, fv):
         es = []
-        for bi, t in self.sites(fv):
-            if t["dest"][1]:
-                continue
-            es += fv.guard_edges(t["dest"][0], self.want)
+        for bi, t in fv.calls:
+            for rx, want in self._forms():
+                if rx.search(cname(t)) or rx.search(t.get("callee_full") or ""):
+                    if (self.arg_pred is None or self.arg_pred(fv, t)) and not t["dest"][1]:
+                        es += fv.guard_edges(t["dest"][0], want)
+                    break
         return es
 
 
